@@ -100,7 +100,6 @@ inline void close_booked(Ctx &ctx, const char *oracle, double a, double b, doubl
     double before = ctx.max_ratio; ctx.max_ratio = 0;
     try { ctx.close(oracle, a, b, scale, tau, where); } catch (...) { ctx.max_ratio = std::max(before, ctx.max_ratio); throw; }
     double r = ctx.max_ratio; ctx.max_ratio = std::max(before, r);
-    if (r >= 1e-3 && getenv("VF_DEBUG_RATIO")) fprintf(stderr, "RATIO %g %s: %s\n", r, oracle, where().c_str());   // DEV ONLY
     if (r >= 1e-3) ctx.count(std::string("ratio>=") + (r >= 1e-1 ? "1e-1" : r >= 1e-2 ? "1e-2" : "1e-3") + ":" + oracle);
 }
 
